@@ -242,3 +242,40 @@ def race_schedule(cands, compact):
                       occ, to])
     return {'kind': 'sites', 'rules': rules,
             'points': [[1, o]] if o else []}
+
+
+class RaceFamily(object):
+    """The race-directed sweep over a list of base cases, for any module with
+    ThreadSim bases: size(tier) and case(i, tier).  `prep` turns a base into
+    the case that is recorded (e.g. adds the application reaction the module
+    installs at execution time)."""
+
+    def __init__(self, bases, tags=None, prep=None, quick=(2, 800),
+                 thorough=(3, 30000)):
+        self.bases, self.tags, self.prep = bases, tags, prep
+        self.quick, self.thorough = quick, thorough
+        self._cache = {}
+
+    def _get(self, b, tier):
+        key = (b, tier)
+        if key not in self._cache:
+            base = self.bases[b]
+            rec = self.prep(base) if self.prep else base
+            cands = race_candidates(rec, self.tags)
+            depth, cap = self.quick if tier == 'quick' else self.thorough
+            self._cache[key] = (cands, race_schedules(base, cands, depth, cap))
+        return self._cache[key]
+
+    def size(self, tier):
+        return sum(len(self._get(b, tier)[1]) for b in range(len(self.bases)))
+
+    def case(self, i, tier):
+        import copy
+        for b in range(len(self.bases)):
+            cands, scheds = self._get(b, tier)
+            if i < len(scheds):
+                break
+            i -= len(scheds)
+        case = copy.deepcopy(self.bases[b])
+        case['schedule'] = race_schedule(cands, scheds[i])
+        return case
